@@ -112,17 +112,17 @@ def c_ostr(s):
 E = "http://e/"
 IRI_GOOD = [E + "a", E + "b", E + "p", "urn:x:y", E + "a#f", E + "é中", E + "a%20b", "a:", E + "\U0001F600", E + "a b",
             "urn:x-rdflib:default", E + "~!$&'()*+,;=:@/?-._"]
-IRI_CTRL = [E + "a\nb", E + "a\tb", E + "\x00", E + "a\rb", E + "a\x1f"]           # finding C05a
+IRI_CTRL = [E + "a\nb", E + "a\tb", E + "\x00", E + "a\rb", E + "a\x1f"]           # refused by URIRef.n3() since ffbc1d81 (was finding C05a)
 IRI_BAD = [E + "a b", E + "a>b", E + "a<b", E + 'a"b', E + "a{b", E + "a}b", E + "a|b", E + "a\\b", E + "a^b", E + "a`b"]  # n3() raises
 IRI_REL = ["a", "", "/x", "#f", "1a:b"]                                               # not wf (no scheme)
 DT_GOOD = ["http://www.w3.org/2001/XMLSchema#string", E + "dt", "urn:d", "http://www.w3.org/1999/02/22-rdf-syntax-ns#langString"]
-DT_BAD = [E + "d>x", E + "d x", E + "d\nx", E + 'd"', E + "d\\u0041", E + "d<", E + "{d}", E + "d|", E + "d^", E + "d`"]  # finding C05b
+DT_BAD = [E + "d>x", E + "d x", E + "d\nx", E + 'd"', E + "d\\u0041", E + "d<", E + "{d}", E + "d|", E + "d^", E + "d`"]  # refused by _quoteLiteral since 16a2b8eb (was finding C05b)
 LABEL_GOOD = ["b1", "b", "N2d2a0cbe9eeb45f6b8eb551763cf3a3a", "a.b", "a-b", "_x", "1", "a:b", "é", "a·", "x..y", "0-", ":"]
 LABEL_BAD = ["", "a b", "a.", "-a", ".a", "a\nb", "a<", "·a", "a..", "a#b", "×", "a\tb"]    # finding C05c
 LEX = ["", "x", "0", 'a"b', "a\\b", "a\nb", "a\rb", "\r\n", "\\n", '\\"', "\t\x00\x0b\x7f", "é中\U0001F600", "'", " x ", "\\u0041",
        "a b\u0085", '"', "\\", "\n", "<>{}|^`", "@en", "^^<x>", "# c", " .", "\"\"\"", "\\\\n\"\r"]
 LANG_GOOD = ["en", "EN-us", "x-1-2", "de-DE-1996", "a"]
-LANG_NL = ["en\n", "a-1\n"]                                                           # finding C05d
+LANG_NL = ["en\n", "a-1\n"]                                                           # refused by Literal() since d6b3ed8d (was finding C05d)
 
 
 def gen_iri(rng, bad=0.12):
@@ -162,7 +162,7 @@ class NtOut(Suite):
     case_ty = "case"
     obs_ty = "obs"
     kf = "kf"
-    kf_ids = {1: "C05a", 2: "C05b", 3: "C05c", 4: "C05d"}
+    kf_ids = {3: "C05c"}
     corr = "nt._nt_row/_quoteLiteral/_quote_encode, NTSerializer.serialize, nquads._nq_row, NQuadsSerializer.serialize, URIRef.n3, BNode.n3"
     quick_n = 900
     thorough_n = 20000
@@ -192,14 +192,22 @@ class NtOut(Suite):
     def run_impl(self, case):
         nq = case["nq"]
         rows, quads = [], []
+        unbuildable = False
         for s, p, o, g in case["rows"]:
-            t = (mk_term(s), mk_term(p), mk_term(o))
-            gi = mk_term(g)
+            try:
+                t = (mk_term(s), mk_term(p), mk_term(o))
+                gi = mk_term(g)
+            except ValueError:      # Literal.__new__ refuses the language tag: the term does not exist, nothing can be written
+                rows.append(None)
+                unbuildable = True
+                continue
             quads.append((t, gi))
             try:
                 rows.append(_nq_row(t, gi) if nq else _nt_row(t))
-            except Exception:  # noqa: BLE001
+            except Exception:  # noqa: BLE001   URIRef.n3() refuses an invalid IRI: in-scope, correct behaviour
                 rows.append(None)
+        if unbuildable:
+            return {"rows": rows, "doc": None}
         try:
             if nq:
                 ds = Dataset()
@@ -447,7 +455,7 @@ class NtRead(Suite):
     oeq = "robs_eqb"
     spec = "rd_spec_ok"
     kf = "rd_kf"
-    kf_ids = {5: "C05e", 6: "C05f", 7: "C05g", 8: "C05h"}
+    kf_ids = {6: "C05f", 7: "C05g", 8: "C05h"}
     corr = "W3CNTriplesParser.parse/readline/parseline/uriref/nodeid/literal, NQuadsParser.parseline, ntriples.unquote, compat.decodeUnicodeEscape"
     quick_n = 700
     thorough_n = 15000
@@ -1350,7 +1358,7 @@ class Conf(Suite):
     oeq = "bools_eqb"
     spec = "conf_spec"
     kf = "conf_kf"
-    kf_ids = {9: "C05i", 10: "C05j", 11: "C05k", 12: "C05l", 13: "C05m", 14: "C05n", 15: "C05o"}
+    kf_ids = {10: "C05j", 11: "C05k", 12: "C05l", 13: "C05m", 14: "C05n", 15: "C05o"}
     CHECKS: list = []
 
     def predicted(self, case):
@@ -1488,12 +1496,6 @@ class Sources(Conf):
     timeout_s = 30.0
     CHECKS = ["str", "bytes", "textfile", "binfile", "path", "stringio", "bytesio", "xml_wellformed", "json_wellformed"]
     EXT = {"turtle": "ttl", "trig": "trig", "xml": "rdf", "json-ld": "jsonld", "nt": "nt", "nquads": "nq"}
-
-    def predicted(self, case):
-        # C05i: bytes given as data= go through a universal-newlines text layer: a raw CR inside a long string becomes LF
-        if case["format"] in ("turtle", "trig") and "raw_cr_in_long_string" in case.get("flags", []):
-            return 9, ["bytes"]
-        return 0, []
 
     def gen(self, rng, i):
         if rng.random() < 0.4:   # line syntaxes too, incl. CR line ends and non-ASCII
